@@ -227,7 +227,10 @@ class TestResult(unittest.TestResult):
 
     def stopTest(self, test):
         # NOTE: In Python 3.12.1 skipped tests may not call startTest()
-        if self._tags is not None:
+        # Only leave a context that startTest entered: unittest may call
+        # stopTest without startTest (addSkip + stopTest for a skipped stdlib
+        # test), and run-level tags must survive that.
+        if self._tags is not None and self._tags.parent is not None:
             self._tags = self._tags.parent
         super().stopTest(test)
 
@@ -1600,7 +1603,10 @@ class ExtendedToOriginalDecorator:
 
     def stopTest(self, test):
         # NOTE: In Python 3.12.1 skipped tests may not call startTest()
-        if self._tags is not None:
+        # Only leave a context that startTest entered: unittest may call
+        # stopTest without startTest (addSkip + stopTest for a skipped stdlib
+        # test), and run-level tags must survive that.
+        if self._tags is not None and self._tags.parent is not None:
             self._tags = self._tags.parent
         return self.decorated.stopTest(test)
 
@@ -1664,7 +1670,10 @@ class ExtendedToStreamDecorator(CopyStreamResult, StreamSummary, TestControl):
 
     def stopTest(self, test):
         # NOTE: In Python 3.12.1 skipped tests may not call startTest()
-        if self._tags is not None:
+        # Only leave a context that startTest entered: unittest may call
+        # stopTest without startTest (addSkip + stopTest for a skipped stdlib
+        # test), and run-level tags must survive that.
+        if self._tags is not None and self._tags.parent is not None:
             self._tags = self._tags.parent
 
     def addError(self, test, err=None, details=None):
